@@ -72,6 +72,8 @@ def op_term(o):
         return "(OScv %s %s %s)" % (m, cbool(o.get("r") == "reject"), pool)
     if t == "a":
         return "(OAdd %s %s)" % (commit(o["msg"][0]), pool)
+    if t == "aa":
+        return "(OAddMany %s %s)" % (commits(o.get("msg")), pool)
     if t == "c":
         return "(OCertify %d %d %d %d %s %s)" % (o.get("from", 0), o.get("to", 0), o["addr"], o.get("key", 0), cbool(o.get("err", False)), pool)
     if t == "g":
@@ -141,7 +143,7 @@ def evaluate(ck, recs):
         o = p["ops"][ix]
         spec_bad = c >= 2
         names = {"v": "verifyAggregateCommit", "s": "singleCommitValidator", "c": "Certify", "g": "GetAggregateCommit->verifyAggregateCommit",
-                 "a": "Pool.Add", "cl": "Pool.Cleanup", "se": "Pool.Select", "u": "Pool.Upgrade"}
+                 "a": "Pool.Add", "aa": "Pool.Add", "cl": "Pool.Cleanup", "se": "Pool.Select", "u": "Pool.Upgrade"}
         kind = o["t"] + (":" + o.get("tag", "") if o["t"] == "v" else "")
         what = "%s: implementation %s (scenario %d phase %d part %s op %d): %s" % (
             names[o["t"]], "violates the C06 oracle" if spec_bad else "differs from the proved model", p["id"], p.get("phase", 0), p["part"], ix,
@@ -185,9 +187,9 @@ def run(ck):
     if not binp:
         return
     if ck.tier == "quick":
-        args = ["-scenarios", "8", "-long", "3", "-poolops", "50", "-phases", "2"]
+        args = ["-scenarios", "11", "-long", "3", "-poolops", "50", "-phases", "2", "-big", "4"]
     else:
-        args = ["-scenarios", "40", "-long", "10", "-poolops", "150", "-phases", "4"]
+        args = ["-scenarios", "46", "-long", "10", "-poolops", "150", "-phases", "4", "-big", "10"]
     recs = ck.run_harness(binp, args)
     if recs is None:
         return
